@@ -25,6 +25,12 @@ tv_shipped = partial(e9.rule_translation, which=("main", "nonhermitian"))
 diag_solver_real = partial(e7b.rule_diagonal_solver, complex_energies=False)  # Hermitian H_0: real energies
 start_data_shipped = partial(e9.rule_start_data, all_programs=False)
 shared_check_memo = partial(e7b.rule_shared_eigenvalue_check, divisions=False)  # C10 / C11: only the memo of checked pairs
+helpers_inputs = partial(e11.rule_helpers, sections=("subspaces", "convert_if_zero", "unpack_blocks", "extract_diagonal"))  # C14
+helpers_solvers = partial(e11.rule_helpers, sections=("preprocess_sylvester", "group_close", "aslinearoperator", "extract_diagonal"))  # C16
+helpers_rejections = partial(e11.rule_helpers, sections=("subspaces", "preprocess_sylvester"))  # C20
+lossless_series = partial(e4.rule_value_preserving, modules=("series",))  # C18
+lossless_solvers = partial(e4.rule_value_preserving, modules=("block_diagonalization", "linalg", "second_quantization", "kpm"))  # C16
+lossless_inputs = partial(e4.rule_value_preserving, modules=("block_diagonalization", "series"))  # C14
 runtime_series = partial(e9.rule_runtime_support, compiler_helpers=False)  # C18 / C19: the series.py part only
 memo_key_parsing = partial(e4.rule_memo_key, modules=("algorithm_parsing", "series"))
 memo_key_nof = partial(e4.rule_memo_key, modules=("number_ordered_form", "second_quantization"))  # C08 is about that arithmetic only
@@ -242,8 +248,8 @@ prop(
 
 prop(
     "C14", level="other", selftest=["block_diagonalization"],
-    rules=[e6.rule_projector_call_sites, e6.rule_subspaces_from_indices, e11.rule_helpers, e2b.rule_taylor, e2b.rule_order_preserving_evals, e2b.rule_key_normalisation,
-           e5.rule_total_callbacks, e2c.rule_adjoint_fill, e4.rule_value_preserving,
+    rules=[e6.rule_projector_call_sites, e6.rule_subspaces_from_indices, helpers_inputs, e2b.rule_taylor, e2b.rule_order_preserving_evals, e2b.rule_key_normalisation,
+           e5.rule_total_callbacks, e2c.rule_adjoint_fill, lossless_inputs,
            # `dense, sparse or symbolic values`: the selection closures have one element-wise branch per value type
            e1b.rule_projection_pairs],
     explanation=(
@@ -258,7 +264,7 @@ prop(
 prop(
     "C16", level="other", selftest=["block_diagonalization", "linalg", "second_quantization", "kpm"],
     rules=[e7b.rule_diagonal_solver, e7b.rule_shared_eigenvalue_check, e7.rule_direct_solver, e7.rule_greens_function,
-           e7.rule_solve_scalar, e7.rule_kpm_structure, e6.rule_projector, e4.rule_value_preserving, e11.rule_helpers],
+           e7.rule_solve_scalar, e7.rule_kpm_structure, e6.rule_projector, lossless_solvers, helpers_solvers],
     explanation=(
         "Sibling cross-check of the solver implementations against the contract H0_i T - T H0_j = Y: orientation "
         "E_i[row] - E_j[col], positive sign and zero-guard of each of the five branches of the diagonal solver; sign / "
@@ -289,7 +295,7 @@ prop(
 
 prop(
     "C18", level="other", selftest=["series"],
-    rules=[e2c.rule_product_by_order, e2c.rule_cauchy_wiring, e2c.rule_adjoint_fill, main_e1, e4.rule_value_preserving, runtime_series,
+    rules=[e2c.rule_product_by_order, e2c.rule_cauchy_wiring, e2c.rule_adjoint_fill, main_e1, lossless_series, runtime_series,
            e9.rule_adjoint_binding],
     explanation=(
         "product_by_order: order box, complementary orders, index wiring (start, middle, *o1) / (middle, end, *o2), "
@@ -313,7 +319,7 @@ prop(
 prop(
     "C20", level="other", selftest=["block_diagonalization"],
     rules=[e5.rule_guards, e5.rule_h0_block_diagonal, e5.rule_guard_dominance, e5.rule_symbolic_hermiticity,
-           e5.rule_total_callbacks, e7b.rule_shared_eigenvalue_check, diag_solver_real, e11.rule_helpers],
+           e5.rule_total_callbacks, e7b.rule_shared_eigenvalue_check, diag_solver_real, helpers_rejections],
     explanation=(
         "Each rejection the property lists is located as a raise whose path condition has exactly the required truth "
         "table over canonical atoms (robust to De-Morgan / nesting / early-return rewrites) and that precedes the "
